@@ -76,6 +76,8 @@ def jobs(tier):
         {"name": "order-rk4", "n": 60 if q else 1200, "eop": "zero", "kind": "order", "method": "rk4"},
         {"name": "adaptive", "n": 80 if q else 2000, "eop": "zero", "kind": "adaptive"},
         {"name": "api", "n": 112 if q else 2400, "eop": "zero", "kind": "api"},
+        # real IERS tables: integration chains that contain a leap second, epoch labelled UTC / TAI / TT
+        {"name": "leap-second", "n": 24 if q else 480, "eop": "real", "kind": "leap", "shards": 2 if q else 16},
     ]
 
 
@@ -85,7 +87,7 @@ def requirements(tier):
         "steps-recomputed:dopri54": 3000, "order-observed:euler": 60, "order-observed:rk4": 20,
         "adaptive-accepted-steps-checked": 5000, "adaptive:target-within-8-steps": 20, "adaptive-reduced-steps": 100, "adaptive-global-checked": 60,
         "energy-drift-order:euler": 60, "energy-drift-order:rk4": 60, "drift-adaptive-checked": 60,
-        "api:pairs-compared": 300, "api:reconfigured-instance": 30, "api:vs-truth": 150, "api:backward-propagate": 20, "api:forward-propagate": 50,
+        "leap:judged": 20, "leap:label:TAI": 4, "leap:label:TT": 4, "leap:label:UTC": 8, "api:pairs-compared": 300, "api:reconfigured-instance": 30, "api:vs-truth": 150, "api:backward-propagate": 20, "api:forward-propagate": 50,
         "api:iter": 100, "api:ephem": 50, "api:arg:Date": 30, "api:arg:timedelta": 30,
         "direction:forward": 50, "direction:backward": 50, "stage-dates-recorded": 1000,
     }
@@ -359,12 +361,69 @@ def run_case(ctx, job, idx, rng, st):
     o = gen_orbit(rng, st, idx)
     ctx.count("orbit:" + o["cls"])
     date0 = Date(2006, 1, 1) + td(rng.randrange(0, 10 * 365 * 86400 * 1000) / 1000.0)
+    if kind == "leap":
+        return case_leap(ctx, job, idx, rng, st, o)
     if kind == "order":
         case_order(ctx, job, idx, rng, st, o, date0)
     elif kind == "adaptive":
         case_adaptive(ctx, job, idx, rng, st, o, date0)
     else:
         case_api(ctx, job, idx, rng, st, o, date0)
+
+
+LEAP_MJD = [53736, 54832, 56109, 57204, 57754]  # 2006-01-01, 2009-01-01, 2012-07-01, 2015-07-01, 2017-01-01 (TAI-UTC steps)
+
+
+def case_leap(ctx, job, idx, rng, st, o):
+    """The time that enters the integration is the time elapsed between two instants.  The chain starts 2-25 min before a
+    leap second and ends after it; the epoch carries the label UTC, TAI or TT (same instants).  Truth: two-body solution
+    over the elapsed time (difference of the instants)."""
+    from beyond.dates import Date
+
+    mu = st["mu"]
+    method = ("rk4", "dopri54", "rkf54")[idx % 3]
+    label = ("UTC", "TAI", "TT", "UTC")[(idx // 3) % 4]
+    h = rng.choice([20.0, 30.0, 60.0])
+    leap = LEAP_MJD[idx % len(LEAP_MJD)]
+    before = round(rng.uniform(120.0, 1500.0), 3)
+    t0_tai = Date(leap, scale="UTC").change_scale("TAI") - td(before)  # `before` seconds of elapsed time before the new TAI-UTC
+    date0 = t0_tai.change_scale(label)
+    if abs((date0 - t0_tai).total_seconds()) > 1.5e-6:
+        ctx.count("leap:not-judged-relabelling-moved-the-instant (C03's subject)")
+        raise env.HarnessSkip()
+    t = round(before + rng.uniform(300.0, 1200.0), 3)
+    y0 = np.concatenate([o["r"], o["v"]])
+    W = descr_of(o, method=method, h=h, epoch=str(date0), epoch_label=label, leap_second_after_s=before, target_s=t, r0=o["r"].tolist(), v0=o["v"].tolist(), mu=mu,
+                 how="Orbit(r0+v0, epoch, 'cartesian', 'EME2000', KeplerNum(timedelta(h), Earth, method=method)).propagate(timedelta(target_s)); real IERS tables")
+    ctx.case({k_: W[k_] for k_ in ("orbit", "a", "e", "method", "h", "epoch", "epoch_label", "target_s")})
+    ctx.count("leap:label:" + label)
+    orb = make_orbit(o, date0, h, method, None, rng, st)
+    try:
+        res, log = run_logged(st, lambda: orb.propagate(td(t)))
+    except Exception as exc:
+        ctx.violation(f"C06/propagate-raises-{method}", dict(W, exc=repr(exc)), f"propagate raised {exc!r}")
+        return
+    out = probe.arr(res)
+    elapsed = (res.date - date0).total_seconds()
+    rt, vt, *_ = tb.propagate_uv(y0[:3], y0[3:], elapsed, mu)
+    d = norm(out[:3] - rt)
+    vn = norm(vt)
+    # integration + interpolation error of these step sizes on these orbits: measured <= 15 m (rk4, 60 s, GTO perigee);
+    # one second of motion is >= 1.5 km on every orbit of the generator
+    allow = 50.0
+    one_second = vn * 1.0
+    key = f"C06/propagate-result-vs-truth-across-a-leap-second-{label}"
+    if label == "UTC" and d > allow and 0.5 * one_second <= d <= 2.0 * one_second:
+        # known finding: the chain is dated by adding the step to the UTC LABEL (61 s of elapsed time per 60 s of label time
+        # across the leap second) while the integrator advanced the state by the step
+        key = "C06/utc-labelled-chain-across-a-leap-second-is-one-second-off"
+    ctx.count("leap:judged")
+    ctx.resid(f"leap:{label}:vs-truth:pos", d, allow, key=key,
+              witness=dict(W, result=out.tolist(), result_date=str(res.date), elapsed_s=elapsed, truth_r=rt.tolist(), one_second_of_motion_m=one_second),
+              msg=f"{method}, epoch labelled {label}, leap second {before} s after the epoch: {d:.1f} m from the two-body solution after {elapsed} s "
+                  f"(one second of motion = {one_second:.0f} m)")
+    ctx.expect(abs(elapsed - t) <= 1.5e-6 or label == "UTC", "C06/result-not-dated-at-the-target", dict(W, elapsed_s=elapsed),
+               f"result dated {elapsed} s after the epoch, requested {t} s")
 
 
 def run_logged(st, fn):
